@@ -4,6 +4,7 @@ import (
 	"context"
 	"fmt"
 	"strings"
+	"sync"
 	"time"
 
 	"github.com/els0r/goProbe/v4/pkg/capture/capturetypes"
@@ -24,6 +25,7 @@ import (
 func (wd *world) scheduled(r *sim.R, fn func(), maxSteps int) (stall string, sc *sim.Sched) {
 	sc = sim.NewSched(r)
 	names := map[int64]string{}
+	var namesMu sync.Mutex
 	wd.fs.Yield = func(op *simfs.Op) {
 		if op.Proc.Name != "r" {
 			return
@@ -31,6 +33,7 @@ func (wd *world) scheduled(r *sim.R, fn func(), maxSteps int) (stall string, sc 
 		// actor = goroutine (workers are distinct actors); named by order of first appearance
 		// of its first operation's path, which is schedule-independent for workers (distinct days)
 		id := sim.GoID()
+		namesMu.Lock() // several workers reach their first operation concurrently
 		n, ok := names[id]
 		if !ok {
 			// named after the goroutine's first operation: independent of goroutine identity and of
@@ -38,6 +41,7 @@ func (wd *world) scheduled(r *sim.R, fn func(), maxSteps int) (stall string, sc 
 			n = "r:" + string(op.Kind) + " " + op.Path
 			names[id] = n
 		}
+		namesMu.Unlock()
 		sc.Yield(n, string(op.Kind)+" "+op.Path)
 	}
 	done := make(chan struct{})
